@@ -352,6 +352,10 @@ func init() {
 		"internal/bytealg.IndexByte": func(fr *frame, a []value) value {
 			return fr.i.indexByte(mkString(a[0].([]value)), a[1])
 		},
+		"internal/bytealg.LastIndexByteString": func(fr *frame, a []value) value { return fr.i.lastIndexByte(a[0], a[1]) },
+		"internal/bytealg.LastIndexByte": func(fr *frame, a []value) value {
+			return fr.i.lastIndexByte(mkString(a[0].([]value)), a[1])
+		},
 		"internal/bytealg.CountString": func(fr *frame, a []value) value { return fr.i.countByte(a[0], a[1]) },
 		"internal/bytealg.Count": func(fr *frame, a []value) value {
 			return fr.i.countByte(mkString(a[0].([]value)), a[1])
@@ -852,6 +856,22 @@ func (i *interpreter) indexByte(s value, c value) value {
 	tc, _ := p.toTerm(c)
 	res := p.BV(64, ^uint64(0))
 	for k := len(b) - 1; k >= 0; k-- {
+		tb, _ := p.toTerm(b[k])
+		res = p.Ite(p.Eq(tb, tc), p.BV(64, uint64(k)), res)
+	}
+	return fromTerm(res, types.Int)
+}
+
+// lastIndexByte: index of the last occurrence of c in s, -1 if absent.
+func (i *interpreter) lastIndexByte(s value, c value) value {
+	if _, ok := s.(ostring); ok {
+		i.unsupported("LastIndexByte on opaque symbolic string")
+	}
+	b, _ := strBytes(s)
+	p := i.ps.pool
+	tc, _ := p.toTerm(c)
+	res := p.BV(64, ^uint64(0))
+	for k := 0; k < len(b); k++ {
 		tb, _ := p.toTerm(b[k])
 		res = p.Ite(p.Eq(tb, tc), p.BV(64, uint64(k)), res)
 	}
